@@ -440,7 +440,7 @@ pub struct JobResult {
     pub wall: f64,
 }
 
-fn seed_for(seed: u64, prop: &str, rule: &str, bits: usize, shard: u32) -> [u8; 32] {
+pub fn seed_for(seed: u64, prop: &str, rule: &str, bits: usize, shard: u32) -> [u8; 32] {
     // FNV-style mixing into 4 lanes; deterministic and stable across runs.
     let mut out = [0u8; 32];
     for lane in 0..4u64 {
@@ -612,12 +612,25 @@ pub struct PropSpec {
     pub thorough_mult: u32,
 }
 
-pub struct Extra {
-    /// additional keys merged into `coverage`
+/// Results of an additional engine run by the binary before `main_with` (e.g. the
+/// generated-program part of C04); merged into evidence, counts and exit code.
+#[derive(Default)]
+pub struct ExtraResult {
     pub coverage: Map<String, Value>,
+    pub violations: Vec<(String, PathBuf)>,
+    pub evaluations: u64,
+    pub nontrivial_hashes: Vec<u64>,
+    pub samples: Vec<Value>,
+    pub known_lines: Vec<String>,
 }
 
-fn hook_counters() -> Value {
+static EXTRA: Mutex<Option<ExtraResult>> = Mutex::new(None);
+
+pub fn set_extra(e: ExtraResult) {
+    *EXTRA.lock().unwrap() = Some(e);
+}
+
+pub fn hook_counters() -> Value {
     #[cfg(recmo_uint_verif)]
     {
         let mut m = Map::new();
@@ -637,7 +650,7 @@ fn hook_counters() -> Value {
     }
 }
 
-fn write_replay(root: &PathBuf, prop: &str, rule: &str, bits: usize, seed: u64, case: &Case, f: &Fail) -> PathBuf {
+pub fn write_replay(root: &PathBuf, prop: &str, rule: &str, bits: usize, seed: u64, case: &Case, f: &Fail) -> PathBuf {
     let dir = root.join("replays").join(prop);
     let _ = std::fs::create_dir_all(&dir);
     let mut h = std::collections::hash_map::DefaultHasher::new();
@@ -793,6 +806,7 @@ pub fn main_with(spec: PropSpec, build: impl Fn(&mut Jobs, &Args), finish: impl 
     let mut all_exhaustive = njobs > 0;
     let mut slowest: Vec<(f64, String)> = vec![];
     let mut failing_jobs = 0u64;
+    let mut extra_cov: Map<String, Value> = Map::new();
     for (job, r) in jobs.v.iter().zip(results.iter()) {
         evals += r.rec.evals;
         cases += r.rec.cases;
@@ -860,6 +874,19 @@ pub fn main_with(spec: PropSpec, build: impl Fn(&mut Jobs, &Args), finish: impl 
     slowest.sort_by(|a, b| b.0.partial_cmp(&a.0).unwrap());
     slowest.truncate(5);
 
+    if let Some(ex) = EXTRA.lock().unwrap().take() {
+        evals += ex.evaluations;
+        for h in ex.nontrivial_hashes {
+            nt.insert(h);
+        }
+        for sm in ex.samples.into_iter().take(12) {
+            samples.push(sm);
+        }
+        violations.extend(ex.violations);
+        known_lines.extend(ex.known_lines);
+        extra_cov = ex.coverage;
+        all_exhaustive = false;
+    }
     // dedupe violations by path
     violations.sort_by(|a, b| a.1.cmp(&b.1));
     violations.dedup_by(|a, b| a.1 == b.1);
@@ -895,6 +922,9 @@ pub fn main_with(spec: PropSpec, build: impl Fn(&mut Jobs, &Args), finish: impl 
     cov.insert("slowest_jobs".into(), json!(slowest.iter().map(|(t, n)| format!("{n}: {t:.2}s")).collect::<Vec<_>>()));
     cov.insert("profile_debug_assertions".into(), json!(cfg!(debug_assertions)));
     for (k, v) in finish(&args) {
+        cov.insert(k, v);
+    }
+    for (k, v) in extra_cov {
         cov.insert(k, v);
     }
 
@@ -961,4 +991,33 @@ pub fn draw<S: Strategy>(s: &S, seed: u64, n: usize) -> Vec<S::Value> {
     let rng = TestRng::from_seed(RngAlgorithm::ChaCha, &seed_for(seed, "draw", "draw", 0, 0));
     let mut runner = TestRunner::new_with_rng(Config::default(), rng);
     (0..n).map(|_| s.new_tree(&mut runner).expect("tree").current()).collect()
+}
+
+/// Write an arbitrary JSON replay document (custom engines: C19, C04-B).
+pub fn write_replay_value(root: &PathBuf, prop: &str, name_hint: &str, v: &Value) -> PathBuf {
+    let dir = root.join("replays").join(prop);
+    let _ = std::fs::create_dir_all(&dir);
+    let mut h = std::collections::hash_map::DefaultHasher::new();
+    v.to_string().hash(&mut h);
+    let name = format!("{}-{:016x}.json", name_hint.replace(|c: char| !c.is_ascii_alphanumeric(), "_"), h.finish());
+    let path = dir.join(name);
+    std::fs::write(&path, serde_json::to_string_pretty(v).unwrap()).expect("write replay");
+    path
+}
+
+/// Write the evidence file for a custom engine.
+pub fn write_evidence(args: &Args, spec: &PropSpec, cov: Map<String, Value>, violations: usize, wall_s: f64) {
+    let ev = json!({
+        "property_id": spec.id,
+        "tier": args.tier,
+        "seed": args.seed,
+        "level": "exploration",
+        "coverage": Value::Object(cov),
+        "assumptions": spec.assumptions,
+        "wall_s": wall_s,
+        "violations": violations,
+    });
+    let dir = args.root.join("evidence");
+    let _ = std::fs::create_dir_all(&dir);
+    std::fs::write(dir.join(format!("{}.json", spec.id)), serde_json::to_string_pretty(&ev).unwrap()).expect("write evidence");
 }
